@@ -98,6 +98,15 @@ def resolve_syntatic_sugar(a: ast.AST) -> ast.AST:
             Returns:
                 ast.AST: The reformed AST as a dictionary
             """
+            if any(isinstance(v, ast.Starred) for v in a.args):
+                # Python binds `*seq` by the length of the sequence, when the call runs: there is
+                # no field it could be bound to here.
+                assert isinstance(a.func, ast.Constant)
+                raise ValueError(
+                    f"A starred argument cannot be bound to the fields of {a.func.value}"
+                    f" - {ast.unparse(node)}."
+                )
+
             if len(sig_arg_names) < (len(a.args) + len(a.keywords)):
                 assert isinstance(a.func, ast.Constant)
                 raise ValueError(
